@@ -224,7 +224,7 @@ def main(argv):
         gen_scripts=['gen_c15.py', 'gen_c06.py', 'gen_c05.py', 'gen_c07.py', 'gen_c04.py'],
         modules=['Alpaqa.Props.C01', 'Alpaqa.Props.C01_Alm'], driver=None,
         extra_sources=['Alpaqa/Gen/C15.lean', 'Alpaqa/Gen/C06.lean', 'Alpaqa/Proofs/VecLemmas.lean',
-                       'Alpaqa/Proofs/C01Panoc.lean', 'Alpaqa/Proofs/C07.lean', 'Alpaqa/Proofs/C07Run.lean',
+                       'Alpaqa/Proofs/C01Panoc.lean', 'Alpaqa/Proofs/PanocFuel.lean', 'Alpaqa/Proofs/PanocSized.lean', 'Alpaqa/Proofs/C07.lean', 'Alpaqa/Proofs/C07Run.lean',
                        'Alpaqa/Proofs/PanocInv.lean', 'Alpaqa/Model/Panoc.lean', 'Alpaqa/Model/C07.lean'],
         harness_name='almrun', harness_sources=[], harness_builder=lambda: (exe, log),
         gen_ops=gen_ops, monitor=monitor, nontrivial=nontrivial,
